@@ -172,6 +172,13 @@ impl Recv {
         // out of `ReservedRemote`. As a result, `recv_open` reports each of them
         // as initial. Only account for the stream once.
         if is_initial && !stream.is_counted {
+            // A pushed stream is reserved without being counted, so the limit
+            // may have been reached by the time the peer activates it.
+            if !counts.can_inc_num_recv_streams() {
+                proto_err!(stream: "recv_headers: max concurrent streams exceeded; stream={:?}", stream.id);
+                return Err(Error::library_reset(stream.id, Reason::REFUSED_STREAM).into());
+            }
+
             // TODO: be smarter about this logic
             if frame.stream_id() > self.last_processed_id {
                 self.last_processed_id = frame.stream_id();
